@@ -117,3 +117,27 @@ package sender
 //@   allows[C06] fsread(h) if h == fsOf(data(s.fsys))
 //@ func (*sender.fsSource).Readlink
 //@   allows[C06] fsread(h) if h == fsOf(data(s.fsys))
+
+// ---------------------------------------------------------------- C13: filter rules
+// A plain-name rule matches the whole name when its pattern contains a
+// slash, the base name otherwise. An entry is excluded iff the FIRST rule
+// matching its name is an exclude rule.
+//@ spec func ruleMatches(fr: *sender.filterRule, name: Str): bool = ite(hasSlash(fr.pattern), fr.pattern == name, fr.pattern == baseOf(name))
+//@ spec func ruleIsInclude(fr: *sender.filterRule): bool = mod(fr.flag, 2) == 1
+//@ spec func isSkipDir(e: error): bool = e == global("path/filepath.SkipDir") || e == global("io/fs.SkipDir")
+
+//@ func (*sender.filterRule).matches
+//@   ensures[C13] [plain-name-match] result <==> ruleMatches(fr, name)
+
+//@ func (*sender.filterRuleList).matches
+//@   ensures[C13] [first-match-wins] result <==> (exists j :: 0 <= j && j < len(l.Filters) && ruleMatches(l.Filters[j], name) && !ruleIsInclude(l.Filters[j]) && (forall k :: 0 <= k && k < j ==> !ruleMatches(l.Filters[k], name)))
+//@   loop[C13] 0: invariant [earlier-rules-do-not-match] -1 <= rangeindex && (forall k :: 0 <= k && k <= rangeindex ==> !ruleMatches(l.Filters[k], name))
+
+//@ func sender.parseFilter
+//@   ensures[C13] [exclude-prefix] err == nil && hasPrefix(line, "- ") ==> result.pattern == trimPrefix(line, "- ") && mod(result.flag, 2) == 0
+//@   ensures[C13] [include-prefix] err == nil && !hasPrefix(line, "- ") && hasPrefix(line, "+ ") ==> result.pattern == trimPrefix(line, "+ ") && mod(result.flag, 2) == 1
+
+// The walk callback prunes (SkipDir) only directories: answering SkipDir
+// for a file makes fs.WalkDir skip the file's remaining siblings.
+//@ func (*sender.scopedWalker).walkFn
+//@   ensures[C13] [skipdir-only-for-directories] isSkipDir(result) && err == nil ==> modeIsDir(infoMode(entryInfo(data(d))))
